@@ -4,6 +4,7 @@
 #include <netdb.h>
 #include <netinet/in.h>
 #include <netinet/tcp.h>
+#include <pthread.h>
 #include <signal.h>
 #include <stdarg.h>
 #include <stdio.h>
@@ -25,6 +26,20 @@ struct client_data {
 };
 
 static LIST_HEAD(client_list);
+
+/* writer threads share one socket: a message must go out in one piece */
+static pthread_mutex_t send_lock = PTHREAD_MUTEX_INITIALIZER;
+
+static int send_iov(int sock, struct iovec *iov, int count)
+{
+	int ret;
+
+	pthread_mutex_lock(&send_lock);
+	ret = writev_all(sock, iov, count);
+	pthread_mutex_unlock(&send_lock);
+
+	return ret;
+}
 
 static int server_socket(struct uftrace_opts *opts)
 {
@@ -146,7 +161,7 @@ void send_trace_dir_name(int sock, char *name)
 	};
 
 	pr_dbg2("send UFTRACE_MSG_SEND_HDR\n");
-	if (writev_all(sock, iov, ARRAY_SIZE(iov)) < 0)
+	if (send_iov(sock, iov, ARRAY_SIZE(iov)) < 0)
 		pr_err("send header failed");
 }
 
@@ -174,7 +189,7 @@ void send_trace_data(int sock, int tid, void *data, size_t len)
 	};
 
 	pr_dbg2("send UFTRACE_MSG_SEND_DATA\n");
-	if (writev_all(sock, iov, ARRAY_SIZE(iov)) < 0)
+	if (send_iov(sock, iov, ARRAY_SIZE(iov)) < 0)
 		pr_err("send data failed");
 }
 
@@ -202,7 +217,7 @@ void send_trace_kernel_data(int sock, int cpu, void *data, size_t len)
 	};
 
 	pr_dbg2("send UFTRACE_MSG_SEND_KERNEL_DATA\n");
-	if (writev_all(sock, iov, ARRAY_SIZE(iov)) < 0)
+	if (send_iov(sock, iov, ARRAY_SIZE(iov)) < 0)
 		pr_err("send kernel data failed");
 }
 
@@ -230,7 +245,7 @@ void send_trace_perf_data(int sock, int cpu, void *data, size_t len)
 	};
 
 	pr_dbg2("send UFTRACE_MSG_SEND_PERF_DATA\n");
-	if (writev_all(sock, iov, ARRAY_SIZE(iov)) < 0)
+	if (send_iov(sock, iov, ARRAY_SIZE(iov)) < 0)
 		pr_err("send kernel data failed");
 }
 
@@ -288,7 +303,7 @@ void send_trace_metadata(int sock, const char *dirname, char *filename)
 	namelen = htonl(namelen);
 
 	pr_dbg2("send UFTRACE_MSG_SEND_META_DATA: %s\n", filename);
-	if (writev_all(sock, iov, ARRAY_SIZE(iov)) < 0)
+	if (send_iov(sock, iov, ARRAY_SIZE(iov)) < 0)
 		pr_err("send metadata failed");
 
 	free(pathname);
@@ -325,7 +340,7 @@ void send_trace_info(int sock, struct uftrace_file_header *hdr, void *info, int 
 	hdr->max_stack = htons(hdr->max_stack);
 
 	pr_dbg2("send UFTRACE_MSG_SEND_INFO\n");
-	if (writev_all(sock, iov, ARRAY_SIZE(iov)) < 0)
+	if (send_iov(sock, iov, ARRAY_SIZE(iov)) < 0)
 		pr_err("send metadata failed");
 }
 
